@@ -752,4 +752,689 @@ theorem list_removed {s s' : P7540} {opn ever : Nat → Bool} {x : Nat} (hc : Co
     intro hh; rw [hh, hlk] at h2; cases h2; exact hx hy
   simp [this, h2]
 
+/-! ### The closed / idle lists -/
+
+/-- `s'` agrees with `s` on store fields C12 can see and on the map (lists may differ). -/
+structure SameC (s s' : P7540) : Prop where
+  len : s'.store.length = s.store.length
+  nd : ∀ i, Fields (s.node i) (s'.node i)
+  nodes : s'.nodes = s.nodes
+  limit : 0 < s'.limit
+
+theorem abs_sameC {s s' : P7540} (h : SameC s s') : absP7 s' = absP7 s := by
+  refine Abs.ext' ?_ ?_
+  · simp [absP7, (h.nd 0).1]
+  · intro id
+    simp only [absP7, lookup_of_nodes h.nodes]
+    split
+    · rfl
+    · split
+      · rename_i n _; rw [(h.nd n).1]
+      · rfl
+
+theorem core_sameC {s s' : P7540} {opn ever : Nat → Bool} (hi : CoreInv s opn ever) (h : SameC s s') :
+    CoreInv s' opn ever := by
+  have hlk := lookup_of_nodes h.nodes
+  refine ⟨by rw [hlk]; exact hi.root, by rw [h.len]; exact hi.rootlen, by rw [(h.nd 0).2.2]; exact hi.rootid,
+    by rw [(h.nd 0).2.1]; exact hi.rootst, ?_, ?_, ?_, ?_, h.limit⟩
+  · intro id n hn; rw [hlk] at hn; rw [h.len, (h.nd n).2.2]; exact hi.map id n hn
+  · intro id; rw [hi.opn id]
+    constructor
+    · rintro ⟨h0, n, h1, h2⟩; exact ⟨h0, n, by rw [hlk]; exact h1, by rw [(h.nd n).2.1]; exact h2⟩
+    · rintro ⟨h0, n, h1, h2⟩; exact ⟨h0, n, by rw [hlk] at h1; exact h1, by rw [(h.nd n).2.1] at h2; exact h2⟩
+  · intro n hn hq; rw [(h.nd n).1] at hq
+    obtain ⟨id, h1, h2⟩ := hi.emp n hn hq
+    exact ⟨id, by rw [hlk]; exact h1, by rw [(h.nd n).2.1]; exact h2⟩
+  · intro id n h0 h1 h2; rw [hlk] at h1; rw [(h.nd n).2.1] at h2; exact hi.ever id n h0 h1 h2
+
+def stOf (c : Bool) : Nat := if c then 1 else 2
+
+/-- invariant of one of the two lists -/
+def LInv (s : P7540) (c : Bool) : Prop :=
+  (∀ x ∈ s.getList c, (s.node x).state = stOf c ∧ s.lookup (s.node x).id = some x) ∧ (s.getList c).Nodup
+
+theorem listInv_iff (s : P7540) : ListInv s ↔ (LInv s true ∧ LInv s false) := by
+  constructor
+  · intro h; exact ⟨⟨h.closedL, h.closedNodup⟩, ⟨h.idleL, h.idleNodup⟩⟩
+  · rintro ⟨⟨h1, h2⟩, ⟨h3, h4⟩⟩; exact ⟨h1, h3, h2, h4⟩
+
+theorem getList_setList_same (s : P7540) (c : Bool) (l : List Nat) : (s.setList c l).getList c = l := by
+  cases c <;> rfl
+
+theorem getList_setList_other (s : P7540) (c : Bool) (l : List Nat) : (s.setList c l).getList (!c) = s.getList (!c) := by
+  cases c <;> rfl
+
+theorem setList_fields (s : P7540) (c : Bool) (l : List Nat) :
+    (s.setList c l).store = s.store ∧ (s.setList c l).nodes = s.nodes ∧ (s.setList c l).limit = s.limit ∧
+    (s.setList c l).maxClosed = s.maxClosed ∧ (s.setList c l).maxIdle = s.maxIdle := by
+  cases c <;> exact ⟨rfl, rfl, rfl, rfl, rfl⟩
+
+theorem sameC_setList (s : P7540) (c : Bool) (l : List Nat) (hl : 0 < s.limit) : SameC s (s.setList c l) := by
+  obtain ⟨h1, h2, h3, _, _⟩ := setList_fields s c l
+  refine ⟨by rw [h1], fun i => ?_, h2, by rw [h3]; exact hl⟩
+  have : (s.setList c l).node i = s.node i := by simp [node, h1]
+  rw [this]; exact ⟨rfl, rfl, rfl⟩
+
+/-- transfer of a list invariant along `SameC`, for an explicitly given list -/
+theorem linv_transfer {s s' : P7540} (h : SameC s s') (st : Nat) (l : List Nat)
+    (hl : ∀ x ∈ l, (s.node x).state = st ∧ s.lookup (s.node x).id = some x) :
+    ∀ x ∈ l, (s'.node x).state = st ∧ s'.lookup (s'.node x).id = some x := by
+  intro x hx
+  rw [(h.nd x).2.1, (h.nd x).2.2, lookup_of_nodes h.nodes]; exact hl x hx
+
+theorem stOf_ne (c : Bool) : stOf c ≠ stOf (!c) := by cases c <;> decide
+theorem stOf_ne_zero (c : Bool) : stOf c ≠ 0 := by cases c <;> decide
+
+/-- `evictHead` keeps everything; it can only drop the oldest member of the list. -/
+theorem evict_spec {s : P7540} {opn ever : Nat → Bool} (c : Bool) (hc : CoreInv s opn ever)
+    (h1 : LInv s c) (h2 : LInv s (!c)) :
+    CoreInv (s.evictHead c) opn ever ∧ LInv (s.evictHead c) c ∧ LInv (s.evictHead c) (!c) ∧
+    absP7 (s.evictHead c) = absP7 s ∧
+    (∀ y, y ∈ (s.evictHead c).getList c → y ∈ s.getList c) ∧
+    (∀ y, y ∉ s.getList c → (s.node y).state ≠ 0 ∨ True → Fields (s.node y) ((s.evictHead c).node y) ∧
+        (s.lookup (s.node y).id = some y → (s.evictHead c).lookup (s.node y).id = some y)) ∧
+    (s.evictHead c).maxClosed = s.maxClosed ∧ (s.evictHead c).maxIdle = s.maxIdle := by
+  have hcase : s.evictHead c = s ∨ ∃ x rest, s.getList c = x :: rest ∧ s.evictHead c = (s.removeNode x).setList c rest := by
+    unfold evictHead
+    by_cases hfull : (s.getList c).length = (if c = true then s.maxClosed else s.maxIdle)
+    · rw [if_pos hfull]
+      cases hg : s.getList c with
+      | nil => left; rfl
+      | cons x rest => right; exact ⟨x, rest, rfl, rfl⟩
+    · rw [if_neg hfull]; left; rfl
+  rcases hcase with hs | ⟨x, rest, hg, hs⟩
+  · rw [hs]; exact ⟨hc, h1, h2, rfl, fun y hy => hy, fun y _ _ => ⟨⟨rfl, rfl, rfl⟩, fun h => h⟩, rfl, rfl⟩
+  · rw [hs]
+    have hxm : x ∈ s.getList c := by rw [hg]; simp
+    obtain ⟨hxs, hxl⟩ := h1.1 x hxm
+    have hx0 : x ≠ 0 := by
+      intro hh; subst hh; rw [hc.rootst] at hxs; exact stOf_ne_zero c hxs.symm
+    have hxst : (s.node x).state ≠ 0 := by rw [hxs]; exact stOf_ne_zero c
+    have hrem := removeNode_spec s x
+    obtain ⟨hcore, habs⟩ := core_removed hc hrem hx0 hxst hxl
+    have hsc := sameC_setList (s.removeNode x) c rest hcore.lim
+    have hnd : (x :: rest).Nodup := by rw [← hg]; exact h1.2
+    have hxrest : x ∉ rest := (List.nodup_cons.1 hnd).1
+    have hxother : x ∉ s.getList (!c) := by
+      intro hm; have := (h2.1 x hm).1; rw [hxs] at this; exact stOf_ne c this
+    refine ⟨core_sameC hcore hsc, ?_, ?_, ?_, ?_, ?_, ?_, ?_⟩
+    · rw [LInv, getList_setList_same]
+      refine ⟨linv_transfer hsc _ rest ?_, (List.nodup_cons.1 hnd).2⟩
+      exact list_removed hc hrem hxl _ rest hxrest (fun y hy => h1.1 y (by rw [hg]; simp [hy]))
+    · rw [LInv, getList_setList_other]
+      have hl2 : (s.removeNode x).getList (!c) = s.getList (!c) := by
+        cases c <;> simp [getList, hrem.closedL, hrem.idleL]
+      rw [hl2]
+      refine ⟨linv_transfer hsc _ _ ?_, h2.2⟩
+      exact list_removed hc hrem hxl _ _ hxother h2.1
+    · rw [abs_sameC hsc, habs]
+    · intro y hy; rw [getList_setList_same] at hy; rw [hg]; exact List.mem_cons_of_mem _ hy
+    · intro y hy _
+      have hyx : y ≠ x := by intro hh; subst hh; exact hy (by rw [hg]; exact List.mem_cons_self)
+      have hf1 := hrem.nd y
+      have hf2 := hsc.nd y
+      refine ⟨⟨hf2.1.trans hf1.1, hf2.2.1.trans hf1.2.1, hf2.2.2.trans hf1.2.2⟩, ?_⟩
+      intro hly
+      rw [lookup_of_nodes hsc.nodes, removed_lookup hrem]
+      have : (s.node y).id ≠ (s.node x).id := by
+        intro hh; rw [hh, hxl] at hly; cases hly; exact hyx rfl
+      simp [this, hly]
+    · rw [(setList_fields _ c rest).2.2.2.1, hrem.maxClosed]
+    · rw [(setList_fields _ c rest).2.2.2.2, hrem.maxIdle]
+
+/-- `addClosedOrIdleNode(list, max, n)` for a mapped node `n` in the right state that is not on the list. -/
+theorem addCOI_spec {s : P7540} {opn ever : Nat → Bool} (c : Bool) (n : Nat) (hc : CoreInv s opn ever)
+    (hli : ListInv s) (hnst : (s.node n).state = stOf c) (hnlk : s.lookup (s.node n).id = some n)
+    (hnin : n ∉ s.getList c) :
+    CoreInv (s.addClosedOrIdle c n) opn ever ∧ ListInv (s.addClosedOrIdle c n) ∧
+      absP7 (s.addClosedOrIdle c n) = absP7 s := by
+  obtain ⟨h1, h2⟩ : LInv s c ∧ LInv s (!c) := by
+    have := (listInv_iff s).1 hli
+    cases c
+    · exact ⟨this.2, this.1⟩
+    · exact this
+  unfold addClosedOrIdle
+  by_cases hmax : (if c = true then s.maxClosed else s.maxIdle) = 0
+  · rw [if_pos hmax]; exact ⟨hc, hli, rfl⟩
+  · rw [if_neg hmax]
+    simp only
+    obtain ⟨e1, e2, e3, e4, e5, e6, _, _⟩ := evict_spec c hc h1 h2
+    have hsc := sameC_setList (s.evictHead c) c ((s.evictHead c).getList c ++ [n]) e1.lim
+    obtain ⟨hf, hlk'⟩ := e6 n hnin (Or.inr trivial)
+    refine ⟨core_sameC e1 hsc, ?_, by rw [abs_sameC hsc, e4]⟩
+    have hnot : n ∉ (s.evictHead c).getList c := fun hm => hnin (e5 n hm)
+    have hA : LInv ((s.evictHead c).setList c ((s.evictHead c).getList c ++ [n])) c := by
+      rw [LInv, getList_setList_same]
+      refine ⟨linv_transfer hsc _ _ ?_, ?_⟩
+      · intro y hy
+        simp only [List.mem_append, List.mem_singleton] at hy
+        rcases hy with hy | rfl
+        · exact e2.1 y hy
+        · refine ⟨by rw [hf.2.1]; exact hnst, ?_⟩
+          rw [hf.2.2]; exact hlk' hnlk
+      · rw [List.nodup_append]
+        refine ⟨e2.2, by simp, ?_⟩
+        intro a ha b hb
+        simp at hb; subst hb
+        intro hab; subst hab; exact hnot ha
+    have hB : LInv ((s.evictHead c).setList c ((s.evictHead c).getList c ++ [n])) (!c) := by
+      rw [LInv, getList_setList_other]
+      exact ⟨linv_transfer hsc _ _ e3.1, e3.2⟩
+    apply (listInv_iff _).2
+    cases c
+    · exact ⟨hB, hA⟩
+    · exact ⟨hA, hB⟩
+
+/-! ### CloseStream -/
+
+/-- `s'` is `s` with node `n` marked closed and its queue detached. -/
+structure Marked (s s' : P7540) (n : Nat) : Prop where
+  len : s'.store.length = s.store.length
+  self : (s'.node n).q = {} ∧ (s'.node n).state = 1 ∧ (s'.node n).id = (s.node n).id
+  nd : ∀ i, i ≠ n → Fields (s.node i) (s'.node i)
+  nodes : s'.nodes = s.nodes
+  closedL : s'.closedL = s.closedL
+  idleL : s'.idleL = s.idleL
+  maxClosed : s'.maxClosed = s.maxClosed
+  maxIdle : s'.maxIdle = s.maxIdle
+  limit : s'.limit = s.limit
+
+theorem closeMark_spec (s : P7540) {n : Nat} (hn : n < s.store.length) : Marked s (s.closeMark n) n := by
+  have hA := node_modNode_self s (fun nn => { nn with state := 1 }) hn
+  have hB := same_addBytes (s.modNode n fun nn => { nn with state := 1 }) n
+    (-((s.modNode n fun nn => { nn with state := 1 }).node n).bytes)
+  have hBlen : n < ((s.modNode n fun nn => { nn with state := 1 }).addBytes n
+      (-((s.modNode n fun nn => { nn with state := 1 }).node n).bytes)).store.length := by
+    rw [hB.len, length_modNode]; exact hn
+  have hC := node_modNode_self _ (fun nn => { nn with q := ({} : WQ) }) hBlen
+  have hmain : Marked s (((s.modNode n fun nn => { nn with state := 1 }).addBytes n
+      (-((s.modNode n fun nn => { nn with state := 1 }).node n).bytes)).modNode n fun nn => { nn with q := {} }) n := by
+    refine ⟨by rw [length_modNode, hB.len, length_modNode], ?_, ?_, ?_, ?_, ?_, ?_, ?_, ?_⟩
+    · rw [hC]
+      refine ⟨rfl, ?_, ?_⟩
+      · show (P7540.node _ n).state = 1
+        rw [(hB.nd n).2.1, hA]
+      · show (P7540.node _ n).id = _
+        rw [(hB.nd n).2.2, hA]
+    · intro i hi
+      rw [node_modNode_ne _ _ hi]
+      have h1 := hB.nd i
+      rw [node_modNode_ne s _ hi] at h1
+      exact h1
+    · show (P7540.addBytes _ n _).nodes = _; rw [hB.nodes]; rfl
+    · show (P7540.addBytes _ n _).closedL = _; rw [hB.closedL]; rfl
+    · show (P7540.addBytes _ n _).idleL = _; rw [hB.idleL]; rfl
+    · show (P7540.addBytes _ n _).maxClosed = _; rw [hB.maxClosed]; rfl
+    · show (P7540.addBytes _ n _).maxIdle = _; rw [hB.maxIdle]; rfl
+    · show (P7540.addBytes _ n _).limit = _; rw [addBytes_limit]; rfl
+  exact ⟨hmain.len, hmain.self, hmain.nd, hmain.nodes, hmain.closedL, hmain.idleL, hmain.maxClosed, hmain.maxIdle,
+    hmain.limit⟩
+
+theorem p7_close {s : P7540} {opn ever : Nat → Bool} {id : Nat} (hc : CoreInv s opn ever) (hli : ListInv s)
+    (hok : opn id = true) :
+    ∃ s', s.closeStream id = (s', .ok) ∧ absP7 s' = (absP7 s).applyOp (.closeS id) ∧
+      CoreInv s' (upd opn id false) ever ∧ ListInv s' := by
+  obtain ⟨hid, n, hl, hst⟩ := (hc.opn id).1 hok
+  have hn := (hc.map id n hl).1
+  have hnid := (hc.map id n hl).2
+  have hn0 : n ≠ 0 := fun hh => hid ((hc.zero_iff hl).1 hh)
+  have hm := closeMark_spec s hn
+  have hlk := lookup_of_nodes hm.nodes
+  have hstf : ∀ i, i ≠ n → (s.closeMark n |>.node i).state = (s.node i).state := fun i hi => (hm.nd i hi).2.1
+  have hidf : ∀ i, ((s.closeMark n).node i).id = (s.node i).id := by
+    intro i; by_cases hi : i = n
+    · subst hi; exact hm.self.2.2
+    · exact (hm.nd i hi).2.2
+  -- the marked state
+  have hcore : CoreInv (s.closeMark n) (upd opn id false) ever := by
+    refine ⟨by rw [hlk]; exact hc.root, by rw [hm.len]; exact hc.rootlen, by rw [hidf]; exact hc.rootid,
+      by rw [hstf 0 (Ne.symm hn0)]; exact hc.rootst, ?_, ?_, ?_, ?_, by rw [hm.limit]; exact hc.lim⟩
+    · intro a m hma; rw [hlk] at hma; rw [hm.len, hidf]; exact hc.map a m hma
+    · intro a
+      by_cases ha : a = id
+      · subst ha
+        simp only [upd, if_true]
+        constructor
+        · intro h; cases h
+        · rintro ⟨_, m, h1, h2⟩
+          rw [hlk, hl] at h1; cases h1
+          rw [hm.self.2.1] at h2; cases h2
+      · simp only [upd, ha, if_false]
+        rw [hc.opn a]
+        constructor
+        · rintro ⟨h0, m, h1, h2⟩
+          have hmn : m ≠ n := fun hh => ha (hc.inj (hh ▸ h1) hl)
+          exact ⟨h0, m, by rw [hlk]; exact h1, by rw [hstf m hmn]; exact h2⟩
+        · rintro ⟨h0, m, h1, h2⟩
+          rw [hlk] at h1
+          have hmn : m ≠ n := fun hh => ha (hc.inj (hh ▸ h1) hl)
+          exact ⟨h0, m, h1, by rw [hstf m hmn] at h2; exact h2⟩
+    · intro m hm0 hq
+      by_cases hmn : m = n
+      · subst hmn; rw [hm.self.1] at hq; exact absurd rfl hq
+      · rw [(hm.nd m hmn).1] at hq
+        obtain ⟨a, h1, h2⟩ := hc.emp m hm0 hq
+        exact ⟨a, by rw [hlk]; exact h1, by rw [hstf m hmn]; exact h2⟩
+    · intro a m h0 h1 h2
+      rw [hlk] at h1
+      by_cases hmn : m = n
+      · subst hmn
+        have := hc.inj h1 hl; subst this
+        exact hc.ever a m h0 h1 (by rw [hst]; decide)
+      · rw [hstf m hmn] at h2; exact hc.ever a m h0 h1 h2
+  have habs : absP7 (s.closeMark n) = (absP7 s).applyOp (.closeS id) := by
+    simp only [Abs.applyOp]
+    refine Abs.ext' ?_ ?_
+    · simp [absP7, (hm.nd 0 (Ne.symm hn0)).1]
+    · intro a
+      simp only [absP7, hlk, upd]
+      by_cases ha : a = id
+      · subst ha; simp [hid, hl, hm.self.1, empty_toList]
+      · simp only [ha, if_false]
+        split
+        · rfl
+        · cases hla : s.lookup a with
+          | none => rfl
+          | some m =>
+            simp only
+            have hmn : m ≠ n := fun hh => ha (hc.inj (hh ▸ hla) hl)
+            rw [(hm.nd m hmn).1]
+  have hnc : n ∉ s.closedL := by
+    intro hmem; have := (hli.closedL n hmem).1; rw [hst] at this; cases this
+  have hni : n ∉ s.idleL := by
+    intro hmem; have := (hli.idleL n hmem).1; rw [hst] at this; cases this
+  have hlist : ListInv (s.closeMark n) := by
+    refine ⟨?_, ?_, by rw [hm.closedL]; exact hli.closedNodup, by rw [hm.idleL]; exact hli.idleNodup⟩
+    · intro x hx; rw [hm.closedL] at hx
+      have hxn : x ≠ n := fun hh => hnc (hh ▸ hx)
+      rw [hstf x hxn, hidf, hlk]; exact hli.closedL x hx
+    · intro x hx; rw [hm.idleL] at hx
+      have hxn : x ≠ n := fun hh => hni (hh ▸ hx)
+      rw [hstf x hxn, hidf, hlk]; exact hli.idleL x hx
+  have hnlk : (s.closeMark n).lookup ((s.closeMark n).node n).id = some n := by
+    rw [hidf, hlk, hnid]; exact hl
+  have hunf : s.closeStream id = (if (s.closeMark n).maxClosed > 0 then ((s.closeMark n).addClosedOrIdle true n, Res.ok)
+      else ((s.closeMark n).removeNode n, Res.ok)) := by
+    simp [closeStream, hid, hl, hst]
+  rw [hunf]
+  by_cases hmc : (s.closeMark n).maxClosed > 0
+  · rw [if_pos hmc]
+    obtain ⟨h1, h2, h3⟩ := addCOI_spec true n hcore hlist (by rw [hm.self.2.1]; rfl) hnlk
+      (by show n ∉ (s.closeMark n).closedL; rw [hm.closedL]; exact hnc)
+    exact ⟨_, rfl, by rw [h3, habs], h1, h2⟩
+  · rw [if_neg hmc]
+    have hrem := removeNode_spec (s.closeMark n) n
+    obtain ⟨h1, h3⟩ := core_removed hcore hrem hn0 (by rw [hm.self.2.1]; decide) hnlk
+    refine ⟨_, rfl, by rw [h3, habs], h1, ?_⟩
+    refine ⟨?_, ?_, by rw [hrem.closedL]; exact hlist.closedNodup, by rw [hrem.idleL]; exact hlist.idleNodup⟩
+    · rw [hrem.closedL]
+      exact list_removed hcore hrem hnlk 1 _ (by rw [hm.closedL]; exact hnc) hlist.closedL
+    · rw [hrem.idleL]
+      exact list_removed hcore hrem hnlk 2 _ (by rw [hm.idleL]; exact hni) hlist.idleL
+
+/-! ### New nodes (OpenStream of a fresh id, AdjustStream creating an idle node) -/
+
+structure Added (s s' : P7540) (id st nid : Nat) : Prop where
+  nidEq : nid = s.store.length
+  len : s'.store.length = s.store.length + 1
+  old : ∀ i, i < s.store.length → Fields (s.node i) (s'.node i)
+  new : (s'.node nid).q = {} ∧ (s'.node nid).state = st ∧ (s'.node nid).id = id
+  nodes : s'.nodes = (id, nid) :: s.nodes
+  closedL : s'.closedL = s.closedL
+  idleL : s'.idleL = s.idleL
+  maxClosed : s'.maxClosed = s.maxClosed
+  maxIdle : s'.maxIdle = s.maxIdle
+  limit : s'.limit = s.limit
+
+theorem getD_append_left {l : List Node} {x : Node} {i : Nat} (h : i < l.length) : (l ++ [x]).getD i {} = l.getD i {} := by
+  simp only [List.getD_eq_getElem?_getD]
+  rw [List.getElem?_append_left h]
+
+theorem getD_append_right {l : List Node} {x : Node} : (l ++ [x]).getD l.length {} = x := by
+  simp [List.getD_eq_getElem?_getD]
+
+theorem addNode_spec (s : P7540) (id st parent : Nat) :
+    Added s (s.addNode id st parent).1 id st (s.addNode id st parent).2 := by
+  -- the state right after `newNode`
+  let A : P7540 := { s.poolGet with store := s.poolGet.store ++ [{ id := id, q := {}, weight := 15, state := st }] }
+  have hAlen : A.store.length = s.store.length + 1 := by simp [A, poolGet]
+  have hAold : ∀ i, i < s.store.length → A.node i = s.node i := by
+    intro i hi; simp only [A, node, poolGet]; exact getD_append_left hi
+  have hAnew : A.node s.store.length = { id := id, q := {}, weight := 15, state := st } := by
+    simp only [A, node, poolGet]; exact getD_append_right
+  have hB := same_setParent! A s.store.length (some parent)
+  have heq : s.addNode id st parent =
+      ({ (A.setParent! s.store.length (some parent)) with nodes := (id, s.store.length) :: (A.setParent! s.store.length (some parent)).nodes },
+       s.store.length) := by
+    simp [addNode, newNode, A, poolGet]
+  rw [heq]
+  refine ⟨rfl, ?_, ?_, ?_, ?_, ?_, ?_, ?_, ?_, ?_⟩
+  · show (A.setParent! _ _).store.length = _; rw [hB.len, hAlen]
+  · intro i hi
+    show Fields (s.node i) ((A.setParent! _ _).node i)
+    have := hB.nd i; rw [hAold i hi] at this; exact this
+  · have := hB.nd s.store.length; rw [hAnew] at this; exact this
+  · show (id, s.store.length) :: (A.setParent! _ _).nodes = _; rw [hB.nodes]; rfl
+  · show (A.setParent! _ _).closedL = _; rw [hB.closedL]; rfl
+  · show (A.setParent! _ _).idleL = _; rw [hB.idleL]; rfl
+  · show (A.setParent! _ _).maxClosed = _; rw [hB.maxClosed]; rfl
+  · show (A.setParent! _ _).maxIdle = _; rw [hB.maxIdle]; rfl
+  · show (A.setParent! _ _).limit = _; rw [limit_setParent!]; rfl
+
+theorem added_lookup {s s' : P7540} {id st nid : Nat} (h : Added s s' id st nid) (a : Nat) :
+    s'.lookup a = if a = id then some nid else s.lookup a := by
+  simp only [lookup, h.nodes, List.lookup]
+  by_cases ha : a = id
+  · subst ha; simp
+  · have : (a == id) = false := by simpa using ha
+    simp [this, ha]
+
+theorem core_added {s s' : P7540} {opn ever : Nat → Bool} {id st nid : Nat} (hc : CoreInv s opn ever)
+    (h : Added s s' id st nid) (hnone : s.lookup id = none) (hid : id ≠ 0) (hst : st = 0 ∨ st = 2) :
+    CoreInv s' (if st = 0 then upd opn id true else opn) (if st = 0 then upd ever id true else ever) ∧
+      absP7 s' = absP7 s := by
+  have hl := added_lookup h
+  have hold : ∀ a m, s.lookup a = some m → m < s.store.length ∧ a ≠ id := by
+    intro a m ham; refine ⟨(hc.map a m ham).1, ?_⟩
+    intro hh; subst hh; rw [hnone] at ham; cases ham
+  have hnid := h.nidEq
+  constructor
+  · refine ⟨?_, by rw [h.len]; omega, by rw [(h.old 0 hc.rootlen).2.2]; exact hc.rootid,
+      by rw [(h.old 0 hc.rootlen).2.1]; exact hc.rootst, ?_, ?_, ?_, ?_, by rw [h.limit]; exact hc.lim⟩
+    · rw [hl]; simp [Ne.symm hid, hc.root]
+    · intro a m ham
+      rw [hl] at ham
+      split at ham
+      · rename_i ha; cases ham; subst ha
+        exact ⟨by rw [h.len, hnid]; omega, h.new.2.2⟩
+      · obtain ⟨h1, _⟩ := hold a m ham
+        exact ⟨by rw [h.len]; omega, by rw [(h.old m h1).2.2]; exact (hc.map a m ham).2⟩
+    · intro a
+      have key : (a ≠ 0 ∧ ∃ m, s'.lookup a = some m ∧ (s'.node m).state = 0) ↔
+          ((a = id ∧ st = 0) ∨ (a ≠ id ∧ opn a = true)) := by
+        rw [hc.opn a]
+        constructor
+        · rintro ⟨h0, m, h1, h2⟩
+          rw [hl] at h1
+          split at h1
+          · rename_i ha; cases h1; left; exact ⟨ha, by rw [h.new.2.1] at h2; exact h2⟩
+          · rename_i ha
+            obtain ⟨hm, _⟩ := hold a m h1
+            right; exact ⟨ha, h0, m, h1, by rw [(h.old m hm).2.1] at h2; exact h2⟩
+        · rintro (⟨ha, hs0⟩ | ⟨ha, h0, m, h1, h2⟩)
+          · subst ha; exact ⟨hid, nid, by rw [hl]; simp, by rw [h.new.2.1]; exact hs0⟩
+          · obtain ⟨hm, _⟩ := hold a m h1
+            exact ⟨h0, m, by rw [hl]; simp [ha, h1], by rw [(h.old m hm).2.1]; exact h2⟩
+      rw [key]
+      have hopnid : opn id = false := by
+        cases ho : opn id with
+        | false => rfl
+        | true => obtain ⟨_, m, h1, _⟩ := (hc.opn id).1 ho; rw [hnone] at h1; cases h1
+      by_cases ha : a = id
+      · subst ha
+        rcases hst with hs | hs
+        · simp [hs, upd]
+        · simp [hs, hopnid]
+      · rcases hst with hs | hs
+        · simp [hs, upd, ha]
+        · simp [hs, ha]
+    · intro m hm0 hq
+      have hlt : m < s.store.length := by
+        apply Classical.byContradiction; intro hge
+        by_cases hmn : m = nid
+        · subst hmn; rw [h.new.1] at hq; exact hq rfl
+        · have : s'.store.length ≤ m := by rw [h.len]; omega
+          rw [node_of_ge s' this] at hq; exact hq rfl
+      rw [(h.old m hlt).1] at hq
+      obtain ⟨a, h1, h2⟩ := hc.emp m hm0 hq
+      obtain ⟨_, ha⟩ := hold a m h1
+      exact ⟨a, by rw [hl]; simp [ha, h1], by rw [(h.old m hlt).2.1]; exact h2⟩
+    · intro a m h0 h1 h2
+      rw [hl] at h1
+      split at h1
+      · rename_i ha; cases h1; subst ha
+        rw [h.new.2.1] at h2
+        rcases hst with hs | hs
+        · simp [hs, upd]
+        · exact absurd hs h2
+      · rename_i ha
+        obtain ⟨hm, _⟩ := hold a m h1
+        rw [(h.old m hm).2.1] at h2
+        have := hc.ever a m h0 h1 h2
+        rcases hst with hs | hs
+        · simp [hs, upd, ha, this]
+        · simp [hs, this]
+  · refine Abs.ext' ?_ ?_
+    · simp [absP7, (h.old 0 hc.rootlen).1]
+    · intro a
+      simp only [absP7, hl]
+      by_cases ha0 : a = 0
+      · simp [ha0]
+      · simp only [ha0, if_false]
+        by_cases ha : a = id
+        · subst ha; simp [hnone, h.new.1, empty_toList]
+        · simp only [ha, if_false]
+          cases hla : s.lookup a with
+          | none => rfl
+          | some m => simp only; rw [(h.old m (hold a m hla).1).1]
+
+theorem list_added {s s' : P7540} {opn ever : Nat → Bool} {id st nid : Nat} (hc : CoreInv s opn ever) (hli : ListInv s)
+    (h : Added s s' id st nid) (hnone : s.lookup id = none) : ListInv s' := by
+  have hl := added_lookup h
+  have tr : ∀ (stt : Nat) (l : List Nat), (∀ x ∈ l, (s.node x).state = stt ∧ s.lookup (s.node x).id = some x) →
+      ∀ x ∈ l, (s'.node x).state = stt ∧ s'.lookup (s'.node x).id = some x := by
+    intro stt l hl0 x hx
+    obtain ⟨h1, h2⟩ := hl0 x hx
+    have hlt := (hc.map _ x h2).1
+    rw [(h.old x hlt).2.1, (h.old x hlt).2.2, hl]
+    have : (s.node x).id ≠ id := by intro hh; rw [hh, hnone] at h2; cases h2
+    simp [this, h1, h2]
+  exact ⟨by rw [h.closedL]; exact tr 1 _ hli.closedL, by rw [h.idleL]; exact tr 2 _ hli.idleL,
+    by rw [h.closedL]; exact hli.closedNodup, by rw [h.idleL]; exact hli.idleNodup⟩
+
+/-! ### OpenStream -/
+
+theorem p7_open {s : P7540} {opn ever : Nat → Bool} {id pusher : Nat} (hc : CoreInv s opn ever) (hli : ListInv s)
+    (hid : id ≠ 0) (hopn : opn id = false) (hfresh : ever id = false) :
+    ∃ s', s.openStream id pusher = (s', .ok) ∧ absP7 s' = absP7 s ∧
+      CoreInv s' (upd opn id true) (upd ever id true) ∧ ListInv s' := by
+  cases hl : s.lookup id with
+  | some cur =>
+    -- the node exists: it can only be an idle node created by AdjustStream
+    have hst2 : (s.node cur).state = 2 := by
+      apply Classical.byContradiction; intro hne
+      have := hc.ever id cur hid hl hne; rw [hfresh] at this; cases this
+    have hcur := (hc.map id cur hl).1
+    have hcur0 : cur ≠ 0 := fun hh => hid ((hc.zero_iff hl).1 hh)
+    have hself := node_modNode_self s (fun n => { n with state := 0 }) hcur
+    have hne : ∀ i, i ≠ cur → (s.modNode cur fun n => { n with state := 0 }).node i = s.node i :=
+      fun i hi => node_modNode_ne s _ hi
+    generalize hT : (s.modNode cur fun n => { n with state := 0 }) = T at hself hne
+    have hTlen : T.store.length = s.store.length := by rw [← hT]; exact length_modNode _ _ _
+    have hTnodes : T.lookup = s.lookup := by rw [← hT]; rfl
+    have hTlim : T.limit = s.limit := by rw [← hT]; rfl
+    have hTcl : T.closedL = s.closedL := by rw [← hT]; rfl
+    have hTabs : absP7 T = absP7 s := by
+      refine Abs.ext' ?_ ?_
+      · simp only [absP7]; rw [hne 0 (Ne.symm hcur0)]
+      · intro a
+        simp only [absP7, hTnodes]
+        split
+        · rfl
+        · cases hla : s.lookup a with
+          | none => rfl
+          | some m =>
+            simp only
+            by_cases hm : m = cur
+            · subst hm; rw [hself]
+            · rw [hne m hm]
+    have hTcore : CoreInv T (upd opn id true) (upd ever id true) := by
+      refine ⟨by rw [hTnodes]; exact hc.root, by rw [hTlen]; exact hc.rootlen,
+        by rw [hne 0 (Ne.symm hcur0)]; exact hc.rootid,
+        by rw [hne 0 (Ne.symm hcur0)]; exact hc.rootst, ?_, ?_, ?_, ?_, by rw [hTlim]; exact hc.lim⟩
+      · intro a m ham
+        rw [hTnodes] at ham
+        rw [hTlen]
+        by_cases hm : m = cur
+        · subst hm; rw [hself]; exact hc.map a m ham
+        · rw [hne m hm]; exact hc.map a m ham
+      · intro a
+        rw [hTnodes]
+        by_cases ha : a = id
+        · subst ha; simp only [upd, if_true, true_iff]
+          exact ⟨hid, cur, hl, by rw [hself]⟩
+        · simp only [upd, ha, if_false]
+          rw [hc.opn a]
+          constructor
+          · rintro ⟨h0, m, h1, h2⟩
+            have hm : m ≠ cur := fun hh => ha (hc.inj (hh ▸ h1) hl)
+            exact ⟨h0, m, h1, by rw [hne m hm]; exact h2⟩
+          · rintro ⟨h0, m, h1, h2⟩
+            have hm : m ≠ cur := fun hh => ha (hc.inj (hh ▸ h1) hl)
+            exact ⟨h0, m, h1, by rw [hne m hm] at h2; exact h2⟩
+      · intro m hm0 hq
+        rw [hTnodes]
+        by_cases hm : m = cur
+        · subst hm; exact ⟨id, hl, by rw [hself]⟩
+        · rw [hne m hm] at hq ⊢
+          exact hc.emp m hm0 hq
+      · intro a m h0 h1 h2
+        rw [hTnodes] at h1
+        by_cases ha : a = id
+        · simp [upd, ha]
+        · simp only [upd, ha, if_false]
+          have hm : m ≠ cur := fun hh => ha (hc.inj (hh ▸ h1) hl)
+          rw [hne m hm] at h2
+          exact hc.ever a m h0 h1 h2
+    have hTclosed : ∀ x ∈ s.closedL, (T.node x).state = 1 ∧ T.lookup (T.node x).id = some x := by
+      intro x hx
+      have hxc : x ≠ cur := by intro hh; subst hh; have := (hli.closedL x hx).1; rw [hst2] at this; cases this
+      rw [hne x hxc, hTnodes]; exact hli.closedL x hx
+    have hTidle : ∀ x ∈ s.idleL.erase cur, (T.node x).state = 2 ∧ T.lookup (T.node x).id = some x := by
+      intro x hx
+      have hxc : x ≠ cur := by intro hh; subst hh; exact (hli.idleNodup.not_mem_erase) hx
+      rw [hne x hxc, hTnodes]; exact hli.idleL x (List.mem_of_mem_erase hx)
+    have hsc : SameC T { T with idleL := s.idleL.erase cur } := ⟨rfl, fun _ => ⟨rfl, rfl, rfl⟩, rfl, hTcore.lim⟩
+    refine ⟨{ T with idleL := s.idleL.erase cur }, by rw [← hT]; simp [openStream, hl, hst2], ?_, core_sameC hTcore hsc, ?_⟩
+    · rw [abs_sameC hsc, hTabs]
+    · exact ⟨by show ∀ x ∈ T.closedL, _; rw [hTcl]; exact linv_transfer hsc 1 _ hTclosed,
+        linv_transfer hsc 2 _ hTidle, by show T.closedL.Nodup; rw [hTcl]; exact hli.closedNodup,
+        hli.idleNodup.erase cur⟩
+  | none =>
+    have hadd := addNode_spec s id 0 ((s.lookup pusher).getD 0)
+    obtain ⟨h1, h2⟩ := core_added hc hadd hl hid (Or.inl rfl)
+    have h3 := list_added hc hli hadd hl
+    simp only [if_true] at h1
+    rcases hA : s.addNode id 0 ((s.lookup pusher).getD 0) with ⟨s1, nid⟩
+    rw [hA] at hadd h1 h2 h3
+    simp only at hadd h1 h2 h3
+    have hsc : SameC s1 { s1 with maxID := if id > s1.maxID then id else s1.maxID } :=
+      ⟨rfl, fun _ => ⟨rfl, rfl, rfl⟩, rfl, h1.lim⟩
+    refine ⟨{ s1 with maxID := if id > s1.maxID then id else s1.maxID }, by simp [openStream, hl, hA], ?_, core_sameC h1 hsc, ?_⟩
+    · rw [abs_sameC hsc, h2]
+    · exact ⟨linv_transfer hsc 1 _ h3.closedL, linv_transfer hsc 2 _ h3.idleL, h3.closedNodup, h3.idleNodup⟩
+
+/-! ### AdjustStream -/
+
+theorem adjust_fold (n : Nat) (l : List Nat) : ∀ s : P7540,
+    Same s (l.foldl (fun s k => if (k != n) = true then s.setParent! k (some n) else s) s) ∧
+    (l.foldl (fun s k => if (k != n) = true then s.setParent! k (some n) else s) s).limit = s.limit := by
+  induction l with
+  | nil => intro s; exact ⟨Same.refl s, rfl⟩
+  | cons k ks ih =>
+    intro s
+    simp only [List.foldl_cons]
+    split
+    · obtain ⟨h1, h2⟩ := ih (s.setParent! k (some n))
+      exact ⟨(same_setParent! _ _ _).trans h1, by rw [h2, limit_setParent!]⟩
+    · exact ih s
+
+theorem adjustLink_spec (s : P7540) (n dep : Nat) (excl : Bool) (w : Nat) :
+    Same s (s.adjustLink n dep excl w).1 ∧ (s.adjustLink n dep excl w).1.limit = s.limit ∧
+      (s.adjustLink n dep excl w).2 = .ok := by
+  unfold adjustLink
+  cases s.lookup dep with
+  | none =>
+    simp only
+    refine ⟨(same_setParent! _ _ _).trans (same_modNode _ _ (fun _ => ⟨rfl, rfl, rfl⟩)), ?_, trivial⟩
+    rw [limit_modNode, limit_setParent!]
+  | some parent =>
+    simp only
+    by_cases hnp : n = parent
+    · rw [if_pos hnp]; exact ⟨Same.refl s, rfl, rfl⟩
+    · rw [if_neg hnp]
+      simp only
+      -- step 1: move the parent out of n's subtree if needed
+      have hA : ∀ t : P7540, Same t (if isAncestor t n (t.store.length + 1) (t.node parent).parent = true
+          then t.setParent! parent (t.node n).parent else t) ∧
+          (if isAncestor t n (t.store.length + 1) (t.node parent).parent = true
+          then t.setParent! parent (t.node n).parent else t).limit = t.limit := by
+        intro t; split
+        · exact ⟨same_setParent! _ _ _, limit_setParent! _ _ _⟩
+        · exact ⟨Same.refl t, rfl⟩
+      obtain ⟨a1, a2⟩ := hA s
+      -- step 2: exclusive
+      have hB : ∀ t : P7540, Same t (if excl = true then
+            (t.node parent).kids.foldl (fun s k => if (k != n) = true then s.setParent! k (some n) else s) t else t) ∧
+          (if excl = true then
+            (t.node parent).kids.foldl (fun s k => if (k != n) = true then s.setParent! k (some n) else s) t else t).limit
+            = t.limit := by
+        intro t; split
+        · exact adjust_fold n _ t
+        · exact ⟨Same.refl t, rfl⟩
+      obtain ⟨b1, b2⟩ := hB (if isAncestor s n (s.store.length + 1) (s.node parent).parent = true
+          then s.setParent! parent (s.node n).parent else s)
+      refine ⟨((a1.trans b1).trans (same_setParent! _ _ _)).trans (same_modNode _ _ (fun _ => ⟨rfl, rfl, rfl⟩)), ?_, trivial⟩
+      rw [limit_modNode, limit_setParent!, b2, a2]
+
+theorem p7_adjust {s : P7540} {opn ever : Nat → Bool} {id dep w : Nat} {excl : Bool} (hc : CoreInv s opn ever)
+    (hli : ListInv s) (hid : id ≠ 0) :
+    ∃ s', s.adjustStream id dep excl w = (s', .ok) ∧ absP7 s' = absP7 s ∧ CoreInv s' opn ever ∧ ListInv s' := by
+  -- first half
+  have hfind : s.adjustFind id = none ∨ ∃ s1 n, s.adjustFind id = some (s1, n) ∧ absP7 s1 = absP7 s ∧
+      CoreInv s1 opn ever ∧ ListInv s1 := by
+    unfold adjustFind
+    cases hl : s.lookup id with
+    | some n => right; exact ⟨s, n, rfl, rfl, hc, hli⟩
+    | none =>
+      simp only
+      by_cases hcond : id ≤ s.maxID ∨ s.maxIdle = 0
+      · left; rw [if_pos hcond]
+      · right
+        rw [if_neg hcond]
+        have hsc0 : SameC s { s with maxID := id } := ⟨rfl, fun _ => ⟨rfl, rfl, rfl⟩, rfl, hc.lim⟩
+        have hc0 := core_sameC hc hsc0
+        have hli0 : ListInv { s with maxID := id } :=
+          ⟨linv_transfer hsc0 1 _ hli.closedL, linv_transfer hsc0 2 _ hli.idleL, hli.closedNodup, hli.idleNodup⟩
+        have hl0 : ({ s with maxID := id } : P7540).lookup id = none := hl
+        have hadd := addNode_spec { s with maxID := id } id 2 0
+        obtain ⟨h1, h2⟩ := core_added hc0 hadd hl0 hid (Or.inr rfl)
+        have h3 := list_added hc0 hli0 hadd hl0
+        have h20 : ¬ (2 = 0) := by decide
+        simp only [h20, if_false] at h1
+        rcases hA : ({ s with maxID := id } : P7540).addNode id 2 0 with ⟨s1, nid⟩
+        rw [hA] at hadd h1 h2 h3
+        simp only at hadd h1 h2 h3
+        have hnin : nid ∉ s1.getList false := by
+          show nid ∉ s1.idleL
+          rw [hadd.idleL]
+          intro hm
+          have := (hc0.map _ nid (hli0.idleL nid hm).2).1
+          rw [hadd.nidEq] at this; exact Nat.lt_irrefl _ this
+        have hlkn : s1.lookup (s1.node nid).id = some nid := by
+          rw [hadd.new.2.2, added_lookup hadd]; simp
+        obtain ⟨c1, c2, c3⟩ := addCOI_spec false nid h1 h3 (by rw [hadd.new.2.1]; rfl) hlkn hnin
+        refine ⟨s1.addClosedOrIdle false nid, nid, rfl, ?_, c1, c2⟩
+        rw [c3, h2, abs_sameC hsc0]
+  unfold adjustStream
+  rw [if_neg hid]
+  rcases hfind with hnone | ⟨s1, n, hsome, ha, hc1, hl1⟩
+  · rw [hnone]; exact ⟨s, rfl, rfl, hc, hli⟩
+  · rw [hsome]
+    simp only
+    obtain ⟨hs, hlim, hok⟩ := adjustLink_spec s1 n dep excl w
+    refine ⟨(s1.adjustLink n dep excl w).1, ?_, by rw [abs_same hs, ha],
+      core_same hc1 hs (by rw [hlim]; exact hc1.lim), list_same hl1 hs⟩
+    rw [← hok]
+
 end NetVerif.Proofs.WriteSched7540
